@@ -138,6 +138,21 @@ Theorem C02_arch_list_covered :
 Proof. exact (fun H r p1 p2 => arch_list_covered_c H the_spec the_flow_c r p1 p2 the_spec_good the_flow_c_ok). Qed.
 Print Assumptions C02_arch_list_covered.
 
+(* "the digests of extra hashed files", as an ORDERED list: util::hash_all (translated: the_extra_order) puts the digest
+   of the i-th file at position i, so two requests whose extra files differ as lists of contents - also by a mere
+   permutation - have different pre-images. *)
+Theorem C02_extra_files_ordered :
+  forall (H : bytes -> bytes) (r : creq) (c1 c2 : list bytes),
+    length c1 = length c2 ->
+    (forall a b, In a c1 -> In b c2 -> H a = H b -> a = b) ->
+    wf_c the_spec (set_extra r (extra_digests the_extra_order H c1)) = true ->
+    wf_c the_spec (set_extra r (extra_digests the_extra_order H c2)) = true ->
+    encode_c H the_spec (set_extra r (extra_digests the_extra_order H c1))
+    = encode_c H the_spec (set_extra r (extra_digests the_extra_order H c2)) ->
+    c1 = c2.
+Proof. exact (fun H r c1 c2 => extra_files_ordered_c H the_spec the_extra_order r c1 c2 the_spec_good the_extra_order_ok). Qed.
+Print Assumptions C02_extra_files_ordered.
+
 (* BLAKE3's collision-freeness is a hypothesis on exactly the two encodings compared. *)
 Theorem C02_key_iff :
   forall (H : bytes -> bytes) (r1 r2 : creq),
@@ -212,6 +227,22 @@ Proof.
   exact (fun H Hh r p1 p2 => arch_list_covered_p H Hh the_spec the_flow_p r p1 p2 the_spec_good the_flow_p_ok).
 Qed.
 Print Assumptions C02_pp_arch_list_covered.
+
+(* "the input path": the preprocessor-level key gets cwd joined with the path as GIVEN (the_input_path_mode), so two
+   spellings that differ as byte strings - e.g. a symbolic link and its target - have different pre-images. *)
+Theorem C02_pp_input_path_as_given :
+  forall (H : bytes -> bytes), (forall x, is_hex64 (H x) = true) ->
+  forall (r : creq) (cwd i1 i2 : bytes),
+    wf_p the_spec (set_path r (input_path_of the_input_path_mode cwd i1)) = true ->
+    wf_p the_spec (set_path r (input_path_of the_input_path_mode cwd i2)) = true ->
+    encode_pp H the_spec (set_path r (input_path_of the_input_path_mode cwd i1))
+    = encode_pp H the_spec (set_path r (input_path_of the_input_path_mode cwd i2)) ->
+    input_path_of AsGiven cwd i1 = input_path_of AsGiven cwd i2.
+Proof.
+  exact (fun H Hh r cwd i1 i2 =>
+           input_path_as_given H Hh the_spec the_input_path_mode r cwd i1 i2 the_spec_good the_input_path_mode_ok).
+Qed.
+Print Assumptions C02_pp_input_path_as_given.
 
 Theorem C02_pp_boundary_shift :
   forall (H : bytes -> bytes), (forall x, is_hex64 (H x) = true) ->
